@@ -265,12 +265,36 @@ func Guard(f func() Verdict) (v Verdict) {
 	return f()
 }
 
+// trimStack renders a stack deterministically: only function names and file:line of
+// frames below the panic, no addresses or goroutine ids (rapid shrinks a failure only
+// when the re-run reports the same message).
 func trimStack(b []byte) string {
-	s := string(b)
-	if len(s) > 2500 {
-		s = s[:2500] + "..."
+	lines := strings.Split(string(b), "\n")
+	var out []string
+	seenPanic := false
+	for _, l := range lines {
+		t := strings.TrimSpace(l)
+		if strings.HasPrefix(t, "panic(") {
+			seenPanic = true
+			out = out[:0]
+			continue
+		}
+		if !seenPanic || !strings.HasPrefix(l, "\t") {
+			continue
+		}
+		// "\t/path/file.go:123 +0x1d" -> "/path/file.go:123"
+		if i := strings.Index(t, " +0x"); i > 0 {
+			t = t[:i]
+		}
+		if strings.Contains(t, "/runtime/") || strings.Contains(t, "/testing/") || strings.Contains(t, "pgregory.net") {
+			continue
+		}
+		out = append(out, t)
+		if len(out) >= 8 {
+			break
+		}
 	}
-	return s
+	return strings.Join(out, " < ")
 }
 
 // Check is TestProp: draws cases with rapid, executes them, records statistics, and on
